@@ -50,6 +50,7 @@ fn cross_plan(prop: &str, thorough: bool) -> Option<(universal::Oracle, bool, Ve
         "C05" => (universal::c05, false, except("C05", &[])),
         "C06" => (universal::c06, false, except("C06", &[])),
         "C07" => (universal::c07, false, except("C07", &[])),
+        "C12" => (universal::c12, false, except("C12", &["C04"])),
         "C15" => (universal::c15, false, except("C15", &["C04"])),
         "C18" => (universal::c18, false, except("C18", &["C04"])),
         _ => return None,
